@@ -307,6 +307,8 @@ def guard_rule(rep, prog, oks):
     for prefix, kw, atoms, when in FLAG_LINES:
         p = reps.get(prefix)
         if p is None:
+            if getattr(rep, "no_floors", False):
+                continue        # alternate pass of the thorough tier: this kind has no further grammar path
             rep.violation("R3", "anchor:%s" % prefix, "frame kind %s not found in the decode model" % prefix)
             continue
         width = len(atoms)
@@ -374,6 +376,22 @@ def guard_rule(rep, prog, oks):
                     rep.violation("R3", "guard:altitude-line:%s:zero" % lab, "%s prints an altitude line although the decoded altitude is 0 (= none)" % lab)
                 if alt.lo > 0 and not present:
                     rep.violation("R3", "guard:altitude-line:%s:missing" % lab, "%s omits the altitude line although the decoded altitude is positive" % lab)
+                # the line's presence must be decided by a test of the decoded altitude itself on every path: present under a
+                # positive outcome (> 0 / != 0 / >= 1), absent under the complementary one - never without looking at the altitude
+            alt_atoms = frozenset()
+            if isinstance(alt, Choice):
+                alt_atoms = decode.choice_atoms(alt) | deps_of(alt)
+            elif isinstance(alt, IntVal) and not alt.is_const():
+                alt_atoms = alt.deps
+            if True:
+                if alt_atoms:
+                    ag = [f[1] for f in o.pc.log if f[0] == "guard" and f[1].get("deps") and f[1]["deps"] <= alt_atoms and not f[1].get("float")]
+                    pos = [g for g in ag if g.get("op") in ("Gt", "Ne", "Ge")]
+                    neg = [g for g in ag if g.get("op") in ("Le", "Eq", "Lt")]
+                    if present and not pos:
+                        rep.violation("R3", "guard:altitude-line:%s:untested-present" % lab, "%s prints the altitude line on a path that never tested the decoded altitude for being non-zero" % lab)
+                    if not present and not neg:
+                        rep.violation("R3", "guard:altitude-line:%s:untested-absent" % lab, "%s omits the altitude line on a path that never found the decoded altitude to be zero (the line depends on something other than altitude > 0)" % lab)
     # velocity: report vs "Invalid packet"
     lab = "DF::ADSB/ME::AirborneVelocity/AirborneVelocitySubType::GroundSpeedDecoding"
     p = reps.get(lab)
@@ -401,9 +419,9 @@ def guard_rule(rep, prog, oks):
 def run(rep, tier, replay=None):
     prog = facts.load("std")
     run_, oks, errs = decode_paths(prog, 14)
-    render_rules(rep, prog, oks)
+    tracker.alt_passes(rep, tier, oks, lambda: render_rules(rep, prog, oks))
     enum_rule(rep, prog)
-    guard_rule(rep, prog, oks)
+    tracker.alt_passes(rep, tier, oks, lambda: guard_rule(rep, prog, oks))
     rep.assume("byte-exact output (fmt machinery, float formatting, whitespace) is NOT decided; label wording around the class keyword is free")
     rep.assume("enum word table frozen from the README / test-suite strings")
     return rep.finish(
